@@ -55,16 +55,16 @@ def gen_cases(rng, tier, H, thr):
             if lb.INT64_MIN <= t <= lb.INT64_MAX:
                 ts.append(t)
     ts += [lb.INT64_MIN, lb.INT64_MIN + 1, lb.INT64_MAX, lb.INT64_MAX - 1, 0, 1, -1]
-    ts += [rng.randrange(lb.INT64_MIN, lb.INT64_MAX) for _ in range(150 * mult)]
-    ts += [rng.randrange(-5 * H, 5 * H) for _ in range(150 * mult)]
+    ts += [rng.randrange(lb.INT64_MIN, lb.INT64_MAX) for _ in range(80 * mult)]
+    ts += [rng.randrange(-5 * H, 5 * H) for _ in range(80 * mult)]
     for t in ts:
         add({"kind": "bucket", "t": t})
     # --- groupByHour
-    for _ in range(150 * mult):
+    for _ in range(100 * mult):
         n = rng.choice([1, 2, 3, 5, 8, 13, 30, 60])
         add({"kind": "group", "ts": lb.gen_times(rng, n, H)})
     # --- permuteByTime and both paths on their own
-    for _ in range(240 * mult):
+    for _ in range(180 * mult):
         n = rng.choice([0, 1, 2, 3, 4, 6, 9, 17, 40])
         style = rng.choice(["rand", "ties", "sorted", "rev", "neg", "extreme"])
         if style == "ties":
@@ -91,7 +91,7 @@ def gen_cases(rng, tier, H, thr):
         add({"kind": "perm", "fn": 2 if i % 4 == 3 else 0, "ts": arr})
     # --- getColumnSignature
     odd = ["_hidden", "", "a,b", "a:b", "Z", "time", "é", "_"]
-    for _ in range(120 * mult):
+    for _ in range(80 * mult):
         b = lb.gen_batch(rng, H, nulls=False)
         for nm in rng.sample(odd, rng.randint(0, 2)):
             if nm not in [c["n"] for c in b["cols"]]:
@@ -99,7 +99,7 @@ def gen_cases(rng, tier, H, thr):
                 b["cols"].append({"n": nm, "t": "s", "s": ["q"] * n})
         add({"kind": "sig", "batch": b})
     # --- mergeBatches
-    for _ in range(260 * mult):
+    for _ in range(200 * mult):
         k = rng.choice([1, 2, 2, 3, 3, 4])
         mode = rng.choice(["same", "same", "sparse", "sparse", "typechange", "underscore"])
         base = lb.gen_schema(rng)
@@ -116,7 +116,7 @@ def gen_cases(rng, tier, H, thr):
             bs.append(lb.gen_batch(rng, H, schema=sch, nulls=rng.random() < 0.7))
         add({"kind": "merge", "batches": bs})
     # --- flushPartitionedData
-    for _ in range(120 * mult):
+    for _ in range(90 * mult):
         n = rng.choice([1, 2, 4, 7, 12, 25])
         add({"kind": "flush", "batch": lb.gen_batch(rng, H, n=n)})
     # --- sequential histories on the real ArrowBuffer
